@@ -402,6 +402,20 @@ def sort(a, *args, **kw):
     return r.view(SymArray)
 
 
+def unique(a, *args, **kw):
+    if not has_sym(a) or args or kw:
+        return _np.unique(a, *args, **kw)
+    srt = sort(_np.asarray(a, dtype=object).ravel())
+    out = [srt[0]]
+    for v in srt[1:]:
+        if not bool(v == out[-1]):
+            out.append(v)
+    r = _np.empty(len(out), dtype=object)
+    for i, v in enumerate(out):
+        r[i] = v
+    return r.view(SymArray)
+
+
 def norm(x, *a, **kw):
     kw.pop('check_finite', None)
     if has_sym(x):
@@ -510,7 +524,7 @@ symnp = _Namespace(_np, dict(
     imag=imag, conj=conj, conjugate=conj, abs=abs_, absolute=abs_,
     sqrt=sqrt, exp=_uf('exp', _np.exp), log=_uf('ln', _np.log),
     log10=_uf('lg', _np.log10), round=round_, around=round_, sort=sort,
-    linalg=_np_linalg, allclose=allclose, any=any__, all=all__,
+    linalg=_np_linalg, allclose=allclose, unique=unique, any=any__, all=all__,
     max=maximum_reduce, amax=maximum_reduce, min=minimum_reduce,
     amin=minimum_reduce, clip=clip,
 ))
